@@ -346,6 +346,9 @@ func cmdCheck(args []string) int {
 	var trusted []string
 	for k := range e.usedExt {
 		trusted = append(trusted, "assumed contract: "+k)
+		if strings.Contains(k, "TRUSTED") && strings.HasSuffix(k, "avro.buildRecordCodec") {
+			trusted = append(trusted, "SCOPE RESTRICTION of the trusted buildRecordCodec contract: record schemas with pairwise distinct field names (as the Avro specification requires). With a repeated name two schema fields decode into the same struct field, so the 'present fields occupy disjoint ranges' and 'destination still zero' parts of the contract do not hold; the real code's behaviour there (second value merged into / overwriting the first, nothing outside the field touched) is exercised only by the bounded stand-in.")
+		}
 	}
 	for _, g := range e.specs.Globals {
 		trusted = append(trusted, "assumed global fact (established by init, never reassigned): "+g.Text)
@@ -619,7 +622,7 @@ func runBoundedRecord(repo, vdir string) map[string]interface{} {
 	res := map[string]interface{}{
 		"functions": []string{"buildRecordCodec", "schemaForStruct"},
 		"label":     "BOUNDED (not a proof)",
-		"bound":     "every struct type with 0..3 fields over 14 field kinds (incl. a type whose registered schema is already a union) and plain/omitempty/excluded tags (reflect.StructOf), its generated schema, its record codec, and sampled projection pairs",
+		"bound":     "every struct type with 0..3 fields over 14 field kinds (incl. a type whose registered schema is already a union) and plain/omitempty/excluded tags (reflect.StructOf), its generated schema, its record codec, sampled projection pairs, and for each kind one record schema that names the field twice (decode between guard arrays)",
 		"checks":    "schema fields = exported non-excluded Go fields in declaration order under their JSON names with the documented type mapping, deterministic; codec fields carry the offset of the struct field of that name, write at most the field's size, stay inside the struct and do not overlap; absent fields are skip-only",
 	}
 	dir, err := os.MkdirTemp("", "govc-bounded")
